@@ -211,6 +211,51 @@ static void finish_opts(AppOpts &a, const std::string &rpath, const std::string 
   a.o.sortlist = a.sort.empty() ? nullptr : a.sort.data(); a.o.nsort = (int)a.sort.size();
   a.o.servers = a.servers.empty() ? nullptr : a.servers.data(); a.o.nservers = (int)a.servers.size();
 }
+// Independent reading of a server list: what the application wrote (the harness's own item forms) and what the library prints are both
+// parsed by this small parser into (address, udp port, tcp port, interface); the two lists must agree.  Nothing of the library is used here
+// apart from inet_pton/inet_ntop of libc, so a server the library drops, reorders, or gives another port shows.
+struct STup { std::string ip; unsigned up = 0, tp = 0; std::string iface; bool operator==(const STup &o) const { return ip == o.ip && up == o.up && tp == o.tp && iface == o.iface; } };
+static std::string stup_str(const std::vector<STup> &v) { std::string o; for (auto &t : v) o += (o.empty() ? "" : " ") + t.ip + (t.iface.empty() ? "" : "%" + t.iface) + "/udp" + std::to_string(t.up) + "/tcp" + std::to_string(t.tp); return o.empty() ? "(none)" : o; }
+static bool stup_host(std::string h, STup &t) {
+  size_t pc = h.find('%'); if (pc != std::string::npos) { t.iface = h.substr(pc + 1); h = h.substr(0, pc); if (t.iface.empty()) return false; }
+  unsigned char b[16]; char out[64];
+  if (inet_pton(AF_INET, h.c_str(), b) == 1) { inet_ntop(AF_INET, b, out, sizeof out); t.ip = out; return true; }
+  if (inet_pton(AF_INET6, h.c_str(), b) == 1) { inet_ntop(AF_INET6, b, out, sizeof out); t.ip = out; return true; }
+  return false;
+}
+static bool stup_num(const std::string &s, unsigned &n) { if (s.empty() || s.size() > 5) return false; n = 0; for (char ch : s) { if (ch < '0' || ch > '9') return false; n = n * 10 + (unsigned)(ch - '0'); } return n <= 65535; }
+static bool stup_item(std::string it, STup &t) {
+  t = STup();
+  if (it.compare(0, 6, "dns://") == 0) {
+    it = it.substr(6); std::string q; size_t qm = it.find('?'); if (qm != std::string::npos) { q = it.substr(qm + 1); it = it.substr(0, qm); }
+    std::string host, port;
+    if (!it.empty() && it[0] == '[') { size_t e = it.find(']'); if (e == std::string::npos) return false; host = it.substr(1, e - 1); std::string r = it.substr(e + 1); if (!r.empty()) { if (r[0] != ':') return false; port = r.substr(1); } }
+    else { size_t e = it.find(':'); host = it.substr(0, e); if (e != std::string::npos) port = it.substr(e + 1); }
+    if (!stup_host(host, t)) return false;
+    if (!port.empty() && !stup_num(port, t.up)) return false;
+    t.tp = t.up;
+    if (!q.empty()) { if (q.compare(0, 8, "tcpport=") != 0 || !stup_num(q.substr(8), t.tp)) return false; }
+    return true;
+  }
+  if (it.find('|') != std::string::npos) { size_t b1 = it.find('|'), b2 = it.find('|', b1 + 1); if (b2 == std::string::npos) return false; if (!stup_host(it.substr(0, b1), t) || !t.iface.empty()) return false; return stup_num(it.substr(b1 + 1, b2 - b1 - 1), t.up) && stup_num(it.substr(b2 + 1), t.tp); }
+  std::string iface; size_t pc = it.find('%'); if (pc != std::string::npos) { iface = it.substr(pc + 1); it = it.substr(0, pc); if (iface.empty()) return false; }
+  std::string host = it, port;
+  if (!it.empty() && it[0] == '[') { size_t e = it.find(']'); if (e == std::string::npos) return false; host = it.substr(1, e - 1); std::string r = it.substr(e + 1); if (!r.empty()) { if (r[0] != ':') return false; port = r.substr(1); } }
+  else if (it.find(':') != std::string::npos && it.find(':') == it.rfind(':')) { size_t e = it.find(':'); host = it.substr(0, e); port = it.substr(e + 1); }
+  if (!stup_host(host, t) || !t.iface.empty()) return false;
+  t.iface = iface;
+  if (!port.empty()) { if (!stup_num(port, t.up)) return false; t.tp = t.up; }
+  return true;
+}
+// list -> tuples; port 0 means "the channel's default port, else 53"; an exact duplicate (address and both ports) is configured once
+static bool stup_list(const std::string &csv, unsigned defu, unsigned deft, std::vector<STup> &out) {
+  out.clear(); std::istringstream ds(csv); std::string d;
+  while (std::getline(ds, d, ',')) { if (d.empty()) continue; STup t; if (!stup_item(d, t)) return false;
+    if (t.ip.compare(0, 4, "fec0") == 0 || (t.ip.compare(0, 4, "fe80") == 0 && t.iface.empty())) return false;   // outside what the harness writes
+    if (!t.up) t.up = defu ? defu : 53; if (!t.tp) t.tp = deft ? deft : 53;
+    bool dup = false; for (auto &x : out) if (x.ip == t.ip && x.up == t.up && x.tp == t.tp) dup = true; if (!dup) out.push_back(t); }
+  return true;
+}
 // canonical form of a server list as the library prints it (through a scratch channel)
 static bool user_wins(ares_channel_t *ch, const AppOpts &a, const std::string &expect_servers, const char *when, Verdict &v) {
   Snap s = snapshot(ch);
@@ -229,6 +274,17 @@ static bool run_c16(const Case &c, Verdict &v, bool &nontrivial) {
   if (!a.servers.empty()) { for (auto &x : a.servers) { char b[32]; inet_ntop(AF_INET, &x, b, sizeof b); unsigned short up = (a.mask & ARES_OPT_UDP_PORT) && a.o.udp_port ? a.o.udp_port : 53; (void)up; } }
   // servers through one of the setters
   bool need_uri = false;
+  unsigned defu = (a.mask & ARES_OPT_UDP_PORT) ? a.o.udp_port : 0, deft = (a.mask & ARES_OPT_TCP_PORT) ? a.o.tcp_port : 0;
+  std::vector<STup> exp_t; bool exp_known = false;
+  if ((a.mask & ARES_OPT_SERVERS) && !a.servers.empty()) { std::string l; for (auto &x : a.servers) { char b[32]; inet_ntop(AF_INET, &x, b, sizeof b); l += (l.empty() ? "" : ",") + std::string(b); } exp_known = stup_list(l, defu, deft, exp_t); }
+  auto servers_as_written = [&](const char *when) -> bool {
+    if (!exp_known || !(ch->optmask & ARES_OPT_SERVERS)) { stats().count("c16.server_expectation_unknown"); return true; }
+    char *got = ares_get_servers_csv(ch); std::string g = got ? got : ""; ares_free_string(got); std::vector<STup> have;
+    if (!stup_list(g, 0, 0, have)) return failv(v, "C16.rendered-server-list-unreadable", std::string(when) + ": '" + g + "'");
+    if (!(have == exp_t)) return failv(v, "C16.servers-differ-from-what-was-set", std::string(when) + ": the application set " + stup_str(exp_t) + " but the channel has " + stup_str(have) + " ('" + g + "')");
+    stats().count("c16.server_lists_compared_with_input"); return true;
+  };
+  if (!servers_as_written("after ares_init_options")) { ares_destroy(ch); return false; }
   for (auto &kv : c.sets) {
     int rc = ARES_SUCCESS; const std::string &how = kv.first, &csv = kv.second;
     if (how == "csv") rc = ares_set_servers_csv(ch, csv.c_str()); else if (how == "portscsv") rc = ares_set_servers_ports_csv(ch, csv.c_str());
@@ -241,6 +297,7 @@ static bool run_c16(const Case &c, Verdict &v, bool &nontrivial) {
       for (size_t i = 0; i + 1 < np.size(); i++) { np[i].next = &np[i + 1]; n4[i].next = &n4[i + 1]; }
       if (how == "legacy") rc = ares_set_servers(ch, n4.empty() ? nullptr : n4.data()); else rc = ares_set_servers_ports(ch, np.empty() ? nullptr : np.data());
     }
+    if (rc == ARES_SUCCESS) { exp_known = stup_list(csv, defu, deft, exp_t); if (!servers_as_written(("after the " + how + " setter").c_str())) { ares_destroy(ch); return false; } }
     if (rc == ARES_SUCCESS) { char *got = ares_get_servers_csv(ch); expect_servers = got ? got : ""; ares_free_string(got); if (expect_servers.find("dns://") != std::string::npos || expect_servers.find('[') != std::string::npos || expect_servers.find('%') != std::string::npos) need_uri = true; stats().count("c16.server_sets_applied"); } else stats().count("c16.server_sets_rejected");
   }
   if (c.has_sl) { if (ares_set_sortlist(ch, c.sl.c_str()) == ARES_SUCCESS) { a.expect["sortlist"] = snapshot(ch).f["sortlist"]; } }
@@ -253,7 +310,7 @@ static bool run_c16(const Case &c, Verdict &v, bool &nontrivial) {
   // (1) the application's explicit settings hold after initialisation ...
   ok = ok && user_wins(ch, a, (ch->optmask & ARES_OPT_SERVERS) ? expect_servers : "", "after initialisation", v);
   // (2) ... and after every reinit, whatever the (new) resolv.conf and the environment say
-  if (ok && c.reinit) { write_file("resolv.conf", join_lines(c.rc2)); ares_reinit(ch); stats().count("c16.reinits"); ok = user_wins(ch, a, (ch->optmask & ARES_OPT_SERVERS) ? expect_servers : "", "after ares_reinit", v); write_file("resolv.conf", join_lines(c.reinit ? c.rc2 : c.valid)); }
+  if (ok && c.reinit) { write_file("resolv.conf", join_lines(c.rc2)); ares_reinit(ch); stats().count("c16.reinits"); ok = servers_as_written("after ares_reinit") && user_wins(ch, a, (ch->optmask & ARES_OPT_SERVERS) ? expect_servers : "", "after ares_reinit", v); write_file("resolv.conf", join_lines(c.reinit ? c.rc2 : c.valid)); }
   Snap S = ok ? snapshot(ch) : Snap();
   // After a reinit with a changed resolv.conf the channel may legitimately keep system-derived values the new file no longer mentions, while a
   // duplicate reads the current file afresh: only what the application supplied is comparable then.
@@ -364,6 +421,8 @@ static std::string gen_case(const std::string &prop, const std::string &kind, co
   unsigned nsets = c.pick(3);
   for (unsigned i = 0; i < nsets; i++) { static const char *how[] = {"csv", "portscsv", "legacy", "legacyports"}; std::string h = how[c.pick(4)]; std::string csv; unsigned n = 1 + c.pick(4);
     for (unsigned q = 0; q < n; q++) { std::string ip = gen_ip(c); bool v6 = ip.find(':') != std::string::npos; std::string item;
+      // link-local servers need an interface; "lo" always exists.  (Only the two text setters can express one.)
+      if ((h == "csv" || h == "portscsv") && c.chance(1, 6)) { std::string ll = "fe80::" + std::to_string(1 + c.pick(50)); unsigned f = c.pick(3); item = f == 0 ? ll + "%lo" : (f == 1 ? "[" + ll + "]:" + gen_port(false) + "%lo" : "dns://[" + ll + "%lo]:" + gen_port(false) + "?tcpport=" + gen_port(false)); csv += (q ? "," : "") + item; continue; }
       if (h == "legacy") item = ip; else if (h == "legacyports") item = ip + "|" + gen_port(true) + "|" + gen_port(true);
       else { unsigned f = c.pick(5); if (f == 0) item = ip; else if (f == 1) item = "[" + ip + "]:" + gen_port(false); else if (f == 2) item = "dns://" + (v6 ? "[" + ip + "]" : ip) + ":" + gen_port(false) + "?tcpport=" + gen_port(false); else if (f == 3 && !v6) item = ip + ":" + gen_port(false); else item = ip; }
       csv += (q ? "," : "") + item; }
